@@ -1,0 +1,12 @@
+#include "verif.h"
+
+#ifdef ORATIO_VERIF
+namespace smt::verif
+{
+    SMT_EXPORT listener *&current() noexcept
+    {
+        static listener *c_listener = nullptr;
+        return c_listener;
+    }
+} // namespace smt::verif
+#endif
